@@ -1369,7 +1369,9 @@ static void DecodeBRCB(Word Code) {
 
     if (ChkArgCnt(1, 1)) {
         tEvalResult EvalResult;
-        Integer AdrInt = EvalStrIntExpressionWithResult(&ArgStr[1], UInt16, &EvalResult);
+        /* NEC writes the operand as !caddr: the prefix is optional, there is only one encoding */
+        Integer AdrInt = EvalStrIntExpressionOffsWithResult(
+                &ArgStr[1], !!(*ArgStr[1].str.p_str == '!'), UInt16, &EvalResult);
 
         if (EvalResult.OK) {
             if (!ChkSamePage(AdrInt, EProgCounter(), 12, EvalResult.Flags))
